@@ -61,6 +61,12 @@ def yields_requested_dtype(e: ast.AST) -> bool:
 
 def run(ctx, col, tier):
     repo = ctx.repo
+    col.rule("R-INPLACE", "saving or wrapping a stack does not write into the array that was handed in: no `out=`, augmented assignment, subscript "
+             "store or in-place method through the parameter or a numpy view of it (expand_dims / moveaxis / reshape / get_full ...) before it has "
+             "been rebound to a fresh array; zero expected, positive examples kept", floor=1)
+    from ..rules import inplace as _inplace
+    _inplace.check(ctx, col, "R-INPLACE", [("swcgeom.images.io.save_tiff", ["data"]),
+                                          ("swcgeom.images.io.NDArrayImageStack.__init__", ["imgs"])])
     col.rule("R-DTYPE", "every arm of a dtype-conversion block rebinds the array by plain assignment "
              "to an expression of the requested dtype (an augmented assignment keeps the old dtype "
              "and writes the caller's array); scale factor direction matches the arm", floor=6, exhaustive=True)
